@@ -538,6 +538,7 @@ def check_partition(chk):
         if cbad is None:
             chk.undecide('split function has %d top-level loops (expected merge loop + drain loop); it partitions the %d concrete hash lists '
                          'correctly, which does not decide all lists' % (len(loops), ncases))
+        chk.partition_shape_skipped = True
         return
     cmpvar = None
     site = 'wasmSplitStaticAndDynamicFunctions'
@@ -1378,7 +1379,7 @@ def run(chk):
     chk.extra['twin_evaluations'] = n_w
     chk.floor('R09.1', 30)
     chk.floor('R09.2', 2)
-    chk.floor('R09.3', 8)
+    chk.floor('R09.3', 1 if getattr(chk, 'partition_shape_skipped', False) else 8)
     chk.floor('R09.4', 500)
     chk.floor('R09.5', 60)
     chk.floor('R09.6', 20)
